@@ -51,6 +51,10 @@ StructsQ ==
              w \in {Vec("ArrayVec", P("u8")), Vec("ArrayVec", P("u32")), Vec("SmallVec", P("u8")), Arr(P("u8"), 3),
                     Arr(P("u16"), 2), Tup(<<P("u8"), P("u8")>>), Tup(<<P("u16"), P("u8")>>), Opt(P("u8")), Bx("Box", P("u32")),
                     Lib("AtomicU8"), Lib("PhantomData"), Lib("ArcStr")}}
+\* attributes that must not influence bytes or schema
+    \cup {StructA(r, <<a, b>>, <<Plain, WithII(Plain)>>) : r \in Reprs, a \in {P("u8"), Str}, b \in {P("u32"), Str}}
+    \cup {StructA(r, <<a, b, c>>, <<WithII(Plain), WithIK(Plain), Plain>>) : r \in Reprs, a \in {P("u16")}, b \in {Str, P("u8")}, c \in {P("u8")}}
+    \cup {StructA("C", <<P("u8"), P("u8")>>, <<WithIK(Plain), WithII(Plain)>>)}
 StructsT ==
     StructsQ
     \cup {Struct(r, <<a, b>>) : r \in Reprs, a \in Mix, b \in Mix}
